@@ -25,7 +25,7 @@ FLOATS = [1.5]
 ANCHORS = ["A", "B", "anc"]
 SPECIAL_KEYS = ["a: b", "h#h", 'q"q', " lead", "back\\slash", "it's", "[br]",
                 "{cu}", "pct%", "dollar$", "star*", "amp&er", "e=q"]
-SPECIAL_STRS = ["a: b", "#hash", " lead", 'q"q', "back\\slash", "trail ",
+SPECIAL_STRS = ["nel\u0085x", "del\u007fx", "a: b", "#hash", " lead", 'q"q', "back\\slash", "trail ",
                 "it's", "- dash", "? q", "@at", "`tick", "!bang", "%pct",
                 "x: y: z", "\u00e9\u00e8", "tab\there"]
 
@@ -65,7 +65,7 @@ class DocGen:
     def __init__(self, rng, *, sets=True, anchors=True, nonascii=False,
                  max_nodes=20, max_depth=4, floats=True, multiline=False,
                  empty_containers=True, mergekeys=False, twins=0.0,
-                 special=False):
+                 special=False, intkeys=False):
         self.rng = rng
         self.sets = sets
         self.anchors = anchors
@@ -78,6 +78,7 @@ class DocGen:
         self.mergekeys = mergekeys
         self.twins = twins
         self.special = special
+        self.intkeys = intkeys
         self.budget = max_nodes
         self.defined = []       # scalar anchors defined so far (doc order)
         self.map_anchors = []   # map anchors (merge-key sources)
@@ -145,6 +146,15 @@ class DocGen:
             keys = [rng.choice(SPECIAL_KEYS) if rng.random() < 0.3 else k
                     for k in keys]
             keys = list(dict.fromkeys(keys))
+        if self.intkeys and rng.random() < 0.5:
+            # integer (also negative) mapping keys, never next to a string
+            # key of the same spelling
+            spelled = {str(k) for k in keys}
+            for pos in range(len(keys)):
+                cand = rng.choice([-1, 0, 7, -20])
+                if rng.random() < 0.35 and str(cand) not in spelled:
+                    spelled.add(str(cand))
+                    keys[pos] = cand
         merge = None
         if self.mergekeys and depth > 0 and self.map_anchors \
                 and rng.random() < 0.35:
@@ -295,7 +305,10 @@ def scalar_text(node, flow=False):
     elif isinstance(value, (int, float)):
         text = repr(value)
     else:
-        if quote == "'":
+        if any(ord(ch) < 0x20 or 0x7f <= ord(ch) <= 0x9f for ch in value):
+            # control characters reach a document only through escapes
+            text = json.dumps(value)
+        elif quote == "'":
             text = "'" + value.replace("'", "''") + "'"
         elif quote == '"' or not _PLAIN_OK.match(value) \
                 or value in _RESERVED:
@@ -446,8 +459,10 @@ def to_json(doc, indent=None):
         if isinstance(data, list):
             return [conv(i) for i in data]
         return data
-    return json.dumps(conv(to_plain(doc)), indent=indent,
-                      ensure_ascii=False) + "\n"
+    text = json.dumps(conv(to_plain(doc)), indent=indent, ensure_ascii=False)
+    if any(0x7f <= ord(ch) <= 0x9f for ch in text):
+        text = json.dumps(conv(to_plain(doc)), indent=indent)
+    return text + "\n"
 
 
 def _json_key(key):
@@ -484,6 +499,8 @@ def positions(doc):
 
 
 def escape_key(key, sep):
+    if isinstance(key, int) and not isinstance(key, bool):
+        return str(key)         # "-1" addresses the integer key -1
     text = str(key)
     out = ""
     for char in text:
